@@ -1,4 +1,5 @@
 import GeoVerif.Ops.Schedules
 import GeoVerif.Ops.Lcoe
 import GeoVerif.Ops.CashFlow
+import GeoVerif.Ops.Capex
 /-! Everything the driver needs (import-free models + ops). -/
